@@ -1076,3 +1076,123 @@ Section FactoryProofs.
       induction ops as [|o r IH]; cbn [irun istep map]; [reflexivity|]. rewrite IH. reflexivity.
   Qed.
 End FactoryProofs.
+
+(* ================= the frame: a message inside a larger buffer ================= *)
+Lemma split3 (mem : list N) off n :
+  off + n <= length mem ->
+  mem = firstn off mem ++ rd off n mem ++ skipn (off + n) mem /\
+  length (firstn off mem) = off /\ length (rd off n mem) = n.
+Proof.
+  intros H. unfold rd. split; [|split].
+  - rewrite <- (skipn_skipn_add mem off n). rewrite firstn_skipn, firstn_skipn. reflexivity.
+  - rewrite firstn_length. lia.
+  - rewrite firstn_length, skipn_length. lia.
+Qed.
+
+Lemma wr_frame (mem out : list N) off n :
+  off + n <= length mem -> length out = n ->
+  length (wr off out mem) = length mem /\
+  firstn off (wr off out mem) = firstn off mem /\
+  skipn (off + n) (wr off out mem) = skipn (off + n) mem /\
+  rd off n (wr off out mem) = out.
+Proof.
+  intros H Ho. destruct (split3 mem off n H) as (Em & Lp & Lw).
+  remember (firstn off mem) as pre eqn:Epre. remember (rd off n mem) as w eqn:Ew0.
+  remember (skipn (off + n) mem) as post eqn:Epost. clear Epre Ew0.
+  assert (Ew : wr off out mem = pre ++ out ++ post).
+  { rewrite Em. apply wr_at; [exact Lp | lia]. }
+  rewrite Ew. repeat split.
+  - rewrite Em. rewrite !app_length. lia.
+  - apply firstn_at. exact Lp.
+  - rewrite app_assoc. apply skipn_at. rewrite app_length. lia.
+  - apply rd_at; assumption.
+Qed.
+
+Lemma rd_outside (a b : list N) off n off2 n2 :
+  length a = length b -> firstn off a = firstn off b -> skipn (off + n) a = skipn (off + n) b ->
+  off2 + n2 <= off \/ off + n <= off2 ->
+  rd off2 n2 a = rd off2 n2 b.
+Proof.
+  intros Hl Hf Hs [H | H]; unfold rd.
+  - (* before the window *)
+    rewrite <- (firstn_skipn off a), <- (firstn_skipn off b), Hf.
+    destruct (Nat.le_gt_cases off (length b)) as [Hb | Hb].
+    + assert (Lb : length (firstn off b) = off) by (rewrite firstn_length; lia).
+      rewrite !skipn_app, !firstn_app, !skipn_length, Lb.
+      replace (off2 - off) with 0 by lia. cbn [skipn].
+      replace (n2 - (off - off2)) with 0 by lia. rewrite !firstn_O. reflexivity.
+    + rewrite (skipn_all2 a) by lia. rewrite (skipn_all2 b) by lia. reflexivity.
+  - (* behind the window *)
+    replace off2 with ((off + n) + (off2 - (off + n))) by lia.
+    rewrite <- (skipn_skipn_add a (off + n) (off2 - (off + n))).
+    rewrite <- (skipn_skipn_add b (off + n) (off2 - (off + n))). rewrite Hs. reflexivity.
+Qed.
+
+Lemma encrypt_at_frame bsz E iv mem off n scratch :
+  supported bsz -> bsz <= length iv -> bsz <= length scratch -> off + n <= length mem ->
+  exists mem' scratch',
+    encrypt_at bsz E iv mem off n scratch = Some (mem', scratch') /\
+    length scratch' = length scratch /\ length mem' = length mem /\
+    firstn off mem' = firstn off mem /\ skipn (off + n) mem' = skipn (off + n) mem /\
+    rd off n mem' = cfb_enc bsz E (firstn bsz iv) (rd off n mem).
+Proof.
+  intros Hs Hiv Hb Hm. unfold encrypt_at.
+  replace (length mem <? off + n) with false by (symmetry; apply Nat.ltb_ge; lia).
+  destruct (encrypt_supported bsz E iv (rd off n mem) scratch Hs Hiv Hb) as (b' & He & Lb).
+  rewrite He. cbn [data buf]. eexists; eexists. split; [reflexivity|]. split; [exact Lb|].
+  apply wr_frame; [exact Hm|].
+  rewrite (cfb_enc_length bsz E (supported_pos bsz Hs)). apply (split3 mem off n Hm).
+Qed.
+
+Lemma decrypt_at_frame bsz E iv mem off n scratch :
+  supported bsz -> bsz <= length iv -> 2 * bsz <= length scratch -> off + n <= length mem ->
+  exists mem' scratch',
+    decrypt_at bsz E iv mem off n scratch = Some (mem', scratch') /\
+    length scratch' = length scratch /\ length mem' = length mem /\
+    firstn off mem' = firstn off mem /\ skipn (off + n) mem' = skipn (off + n) mem /\
+    rd off n mem' = cfb_dec bsz E (firstn bsz iv) (rd off n mem).
+Proof.
+  intros Hs Hiv Hb Hm. unfold decrypt_at.
+  replace (length mem <? off + n) with false by (symmetry; apply Nat.ltb_ge; lia).
+  destruct (decrypt_supported bsz E iv (rd off n mem) scratch Hs Hiv Hb) as (b' & He & Lb).
+  rewrite He. cbn [data buf]. eexists; eexists. split; [reflexivity|]. split; [exact Lb|].
+  apply wr_frame; [exact Hm|].
+  rewrite (cfb_dec_length bsz E (supported_pos bsz Hs)). apply (split3 mem off n Hm).
+Qed.
+
+(* another packet in the same buffer is not touched, whichever of the two calls runs *)
+Lemma neighbour_untouched bsz E iv mem off n se sd off2 n2 :
+  supported bsz -> bsz <= length iv -> bsz <= length se -> 2 * bsz <= length sd ->
+  off + n <= length mem -> off2 + n2 <= off \/ off + n <= off2 ->
+  exists me be md bd,
+    encrypt_at bsz E iv mem off n se = Some (me, be) /\
+    decrypt_at bsz E iv mem off n sd = Some (md, bd) /\
+    rd off2 n2 me = rd off2 n2 mem /\ rd off2 n2 md = rd off2 n2 mem.
+Proof.
+  intros Hs Hiv Hse Hsd Hm Hd.
+  destruct (encrypt_at_frame bsz E iv mem off n se Hs Hiv Hse Hm) as (me & be & He & _ & Le & Fe & Se & _).
+  destruct (decrypt_at_frame bsz E iv mem off n sd Hs Hiv Hsd Hm) as (md & bd & Hdd & _ & Ld & Fd & Sd & _).
+  exists me, be, md, bd. repeat split; try assumption.
+  - apply (rd_outside me mem off n off2 n2 Le Fe Se Hd).
+  - apply (rd_outside md mem off n off2 n2 Ld Fd Sd Hd).
+Qed.
+
+(* the two directions of one instance have disjoint footprints *)
+Lemma duplex_footprints bsz E iv c c' m :
+  (encbuf c = encbuf c' ->
+     option_map fst (cstep bsz E iv c (Enc m)) = option_map fst (cstep bsz E iv c' (Enc m)) /\
+     (forall out c1, cstep bsz E iv c (Enc m) = Some (out, c1) -> decbuf c1 = decbuf c)) /\
+  (decbuf c = decbuf c' ->
+     option_map fst (cstep bsz E iv c (Dec m)) = option_map fst (cstep bsz E iv c' (Dec m)) /\
+     (forall out c1, cstep bsz E iv c (Dec m) = Some (out, c1) -> encbuf c1 = encbuf c)).
+Proof.
+  split; intros H; cbn [cstep]; rewrite <- H.
+  - split.
+    + destruct (encrypt bsz E iv (mkst m (encbuf c))); reflexivity.
+    + intros out c1. destruct (encrypt bsz E iv (mkst m (encbuf c))); [|discriminate].
+      intros [= _ <-]. reflexivity.
+  - split.
+    + destruct (decrypt bsz E iv (mkst m (decbuf c))); reflexivity.
+    + intros out c1. destruct (decrypt bsz E iv (mkst m (decbuf c))); [|discriminate].
+      intros [= _ <-]. reflexivity.
+Qed.
